@@ -10,6 +10,7 @@ Driver for C19. Case lines (family letter first):
   F <code> <preCT> <format> <nargs> { S <str> | O }* <sprintf> => R <status> <ctype> <body> | E | P
   J <variant> <code> <hasExtra> <extra> <encOK> <enc> => R <status> <ctype> <body> <same> | E <bodylen> <ctype> | P
   H <n> { <op> <args…> <code> <ship…> <keys…> }* => <n> { V <nkeys> { <values…> }* | P }*
+  R <n> { W <failAt> <mode> (F … | J … | T <kind> <code> <ct> <text>) }* => <n> { R <status> <ctype> <body> <same> | E <delivered> | P }*
 -/
 namespace Rivaas.DriverC19
 open Rivaas.Proto
@@ -139,6 +140,94 @@ def stepJ (id : String) (inp obs : List String) : String :=
       verdict id mi s "-" "E 0 h:"
   | _, _ => s!"{id} bad-case"
 
+/-! ### R: histories of render calls, some to a response writer whose k-th Write fails -/
+
+inductive RCall
+  | f (code : Nat) (pre fmt : Bytes) (args : List (Option Bytes)) (sp : Bytes)
+  | j (v code : Nat) (extra : Option Bytes) (ok : Bool) (enc : Bytes)
+  | t (kind code : Nat) (ct text : Bytes)
+
+structure RStep where
+  failAt : Nat
+  mode : Nat
+  call : RCall
+
+def pRStep : P RStep := do
+  lit "W"
+  let failAt ← nat
+  let mode ← nat
+  let k ← tok
+  let call ← if k == "F" then do
+      let code ← nat; let pre ← str; let fmt ← str; let args ← list pArg; let sp ← str
+      pure (RCall.f code pre fmt args sp)
+    else if k == "J" then do
+      let v ← nat; let code ← nat; let he ← bool; let ex ← str; let ok ← bool; let enc ← str
+      pure (RCall.j v code (if he then some ex else none) ok enc)
+    else if k == "T" then do
+      let kind ← nat; let code ← nat; let ct ← str; let text ← str
+      pure (RCall.t kind code ct text)
+    else failure
+  pure { failAt := failAt, mode := mode, call := call }
+
+inductive RObs
+  | ok (status : Nat) (ctype body : Bytes) (same : Bool)
+  | err (delivered : Bytes)
+  | panic
+
+def pRObs : P RObs := do
+  let k ← tok
+  if k == "R" then do
+    let st ← nat; let ct ← str; let b ← str; let same ← bool
+    pure (.ok st ct b same)
+  else if k == "E" then RObs.err <$> str
+  else if k == "P" then pure .panic else failure
+
+/-- the model's response on a healthy writer: `none` = the helper returns an error and writes nothing -/
+def rModel : RCall → Option (Nat × Bytes × Bytes)
+  | .f code pre fmt args sp =>
+    some (code, Render.stringfCType pre,
+      Render.stringfBody fmt (args.map fun a => match a with | some s => Render.Arg.str s | none => Render.Arg.other) sp)
+  | .j v code extra ok enc => if ok then some (code, Render.jsonCType v, Render.jsonBody v extra enc) else none
+  | .t kind code ct text => some (code, Render.plainCType kind ct, text)
+
+/-- the unchanged per-call oracle on a response that reports success -/
+def rOracle (c : RCall) (st : Nat) (ct b : Bytes) (same : Bool) : Bool :=
+  match c with
+  | .f code pre fmt args sp =>
+    RenderSpec.stringfOK code pre fmt (args.map fun a => match a with | some s => RenderSpec.Arg.str s | none => RenderSpec.Arg.other) sp st ct b
+  | .j v code extra ok enc => ok && RenderSpec.jsonOK v code extra enc st ct b same
+  | .t kind code ct0 text => RenderSpec.plainOK kind code ct0 text st ct b
+
+def encRModel : Option (Nat × Bytes × Bytes) → String
+  | some (code, ct, b) => s!"R {code} {encStr ct} {encStr b}"
+  | none => "E"
+
+def stepR (id : String) (inp obs : List String) : String :=
+  match runP (list pRStep) inp, runP (list pRObs) obs with
+  | some steps, some os =>
+    let ms := steps.map (fun s => rModel s.call)
+    let judge (p : RStep × RObs) : Bool × Bool :=
+      let s := p.1
+      let m := rModel s.call
+      match p.2 with
+      | .panic => (false, false)
+      | .ok st ct b same =>
+        -- success reported: exactly the documented response, whatever happened to other responses
+        let mi := match m with
+          | some (code, mct, mb) =>
+            -- a writer broken at its first Write cannot deliver a non-empty body
+            st == code && ct == mct && b == mb && !(s.failAt == 1 && !mb.isEmpty)
+          | none => false
+        (mi, rOracle s.call st ct b same)
+      | .err _ =>
+        -- failure reported: nothing is demanded of the bytes; the model expects it only from a broken
+        -- writer or an unencodable value (how many Writes a helper issues is not documented behaviour)
+        (s.failAt ≥ 1 || m.isNone, s.failAt ≥ 1 || m.isNone)
+    let vs := (steps.zip os).map judge
+    let okLen := os.length == steps.length
+    verdict id (okLen && vs.all (·.1)) (okLen && vs.all (·.2)) "-" (" ".intercalate (toString ms.length :: ms.map encRModel))
+  | _, _ => s!"{id} bad-case"
+
 /-! ### H -/
 
 structure HOp where
@@ -202,6 +291,7 @@ def step (line : String) : String :=
     | "F" :: rest => stepF id rest obs
     | "J" :: rest => stepJ id rest obs
     | "H" :: rest => stepH id rest obs
+    | "R" :: rest => stepR id rest obs
     | _ => s!"{id} bad-case"
 
 end Rivaas.DriverC19
